@@ -144,7 +144,9 @@ def pat_src(p, top=False):
     if k == "splat":
         return "..." + pat_src(p["p"])
     if k == "dflt":
-        return "%s = %s" % (pat_src(p["p"]), val_src(p["dv"]))
+        # `p = dv` as a lambda parameter (top), `(p = dv)` as an item of any other sequence pattern
+        s = "%s = %s" % (pat_src(p["p"]), val_src(p["dv"]))
+        return s if top else "(" + s + ")"
     if k == "or":
         return "(%s or %s)" % (pat_src(p["a"]), pat_src(p["b"]))
     if k == "and":
@@ -194,25 +196,22 @@ def skeleton(p):
 
 
 def contexts(p, v):
-    """[(context name, statement source, how to read the result)] for one (pattern, value) pair.
-    names = binding order of the specification (Pattern!Names)."""
+    """[(context name, statement source)] for one (pattern, value) pair; NAMES is replaced by the
+    names the specification binds.  Defaulted items `(p = dv)` are accepted by every context; a
+    lambda parameter list additionally writes them bare (`p = dv`)."""
     out = []
     vs = val_src(v)
-    has_dflt = has_kind(p, ("dflt",))
     has_lit = has_kind(p, ("lit",))
     top_items = p["items"] if p["k"] == "seq" and not p["delim"] else None
-    if not has_dflt:
-        if p["k"] == "ann":
-            out.append(("decl", "%s = %s" % (pat_src(p, True), vs)))
-        else:
-            out.append(("decl", "%s := %s" % (pat_src(p, True), vs)))
-        out.append(("switch", "switch (%s) case %s -> [\"arm\", NAMES] case _ -> \"nomatch\"" % (vs, pat_src(p, True))))
-    if not has_dflt:
-        out.append(("catch", "try (throw %s) catch %s -> [\"arm\", NAMES]" % (vs, pat_src(p, True))))
-    if not has_lit and not has_dflt:
-        out.append(("for", "for (%s <- [%s]) yield [\"arm\", NAMES]" % (pat_src(p, True), vs)))
+    if p["k"] == "ann":
+        out.append(("decl", "%s = %s" % (pat_src(p, True), vs)))
+    else:
+        out.append(("decl", "%s := %s" % (pat_src(p, True), vs)))
+    out.append(("switch", "switch (%s) case %s -> [\"arm\", NAMES] case _ -> \"nomatch\"" % (vs, pat_src(p, True))))
+    out.append(("catch", "try (throw %s) catch %s -> [\"arm\", NAMES]" % (vs, pat_src(p, True))))
     if not has_lit:
-        if not has_dflt and p["k"] != "splat":
+        out.append(("for", "for (%s <- [%s]) yield [\"arm\", NAMES]" % (pat_src(p, True), vs)))
+        if p["k"] != "splat":
             one = pat_src(p, top=(p["k"] == "ann" and p["p"]["k"] in ("var", "wild")))
             out.append(("lambda", "(\\%s -> [\"arm\", NAMES])(%s)" % (one, vs)))
         if top_items is not None and v["t"] == "list":
